@@ -636,6 +636,10 @@ func opScan(r *rand.Rand, n int, tier, mix string) {
 			if r.Intn(3) == 0 {
 				txt += "no eol"
 			}
+			if r.Intn(8) == 0 {
+				// an unterminated last line of exactly k read buffers (or one byte off), at the start of the stream or after a few short lines
+				txt = genJunk(r, r.Intn(3), true, false) + variedText(r, (1+r.Intn(3))*16384+[]int{0, 0, 0, -1, 1}[r.Intn(5)])
+			}
 			emitScan(id, []byte(txt), genSched(r, len(txt)), genFinal(r), nameArgs, "junk", "-", "-")
 		case "c03": // mutants
 			var base string
